@@ -143,7 +143,49 @@ def model(cons, syms, candidates=None, budget=20000):
     m = model_fm(cons)
     if m is not None and all(holds(c, m) for c in cons):
         return m
-    return model_enum(cons, syms, candidates, budget)
+    m = model_enum(cons, syms, candidates, budget)
+    if m is None:
+        m = model_dfs(cons, syms, candidates)
+    return m
+
+
+def model_dfs(cons, syms, candidates=None, budget=400000):
+    """integer witness by depth-first assignment over boundary values, a constraint being tested as soon as all of its variables
+    are assigned (early pruning makes the search feasible where the plain product is not)"""
+    cands = list(candidates or [0, 1, 2, 3, 4, 5, 7, 8, 2 ** 63 - 1, 2 ** 63, 2 ** 64 - 2, 2 ** 64 - 1])
+    syms = [s_ for s_ in sorted(syms, key=str)]
+    occ = {s_: sum(1 for c in cons if c.get(s_, 0) != 0) for s_ in syms}
+    order = sorted(syms, key=lambda s_: (-occ[s_], str(s_)))
+    pos = {s_: i for i, s_ in enumerate(order)}
+    # constraint -> index of its last variable in the order
+    ready = [[] for _ in order]
+    for c in cons:
+        vs = [k for k in c if k != 1 and c[k] != 0]
+        if any(v not in pos for v in vs):
+            return None
+        if not vs:
+            if c.get(1, 0) > 0:
+                return None
+            continue
+        ready[max(pos[v] for v in vs)].append(c)
+    env = {}
+    count = [0]
+
+    def rec(i):
+        if i == len(order):
+            return True
+        v = order[i]
+        for val in cands:
+            count[0] += 1
+            if count[0] > budget:
+                return False
+            env[v] = val
+            if all(holds(c, env) for c in ready[i]):
+                if rec(i + 1):
+                    return True
+        env.pop(v, None)
+        return False
+    return dict(env) if rec(0) else None
 
 
 def model_fm(cons):
